@@ -320,6 +320,12 @@ def Generics.useToks (g : Generics) : Toks := g.angled GParam.useToks
 def Generics.whereToks (g : Generics) : Toks :=
   if g.wheres.isEmpty then [] else "where" :: sepBy "," (g.wheres.map WPred.toks) ++ (if g.trailingWhere then [","] else [])
 
+/-- the where-clause as the forwarder copies it into a generated impl: `<X>::Assoc: ..` (what `<Self>::Assoc: ..`
+has become) is parenthesized -/
+def Generics.whereToksIn (g : Generics) : Toks :=
+  if g.wheres.isEmpty then []
+  else "where" :: sepBy "," (g.wheres.map fun p => p.inWhere.toks) ++ (if g.trailingWhere then [","] else [])
+
 def GParam.expandSelf (to : Ty) : GParam → GParam
   | .lt n bs => .lt n bs
   | .ty n bs d => .ty n (bs.map (TBound.expandSelf to)) (d.map (Ty.expandSelf to))
